@@ -29,10 +29,10 @@ ASSUMPTIONS = [
     "connection loss enters through ServiceDiscoveryProtocol.connection_lost and is followed by an idle point",
     "a deadline closer than RES to an idle point counts as reached (asyncio runs timers that are due within its clock resolution)",
 ]
-BUDGET = {"quick": {"examples": 3200, "shrink": 300}, "thorough": {"examples": 320000, "shrink": 2000}}
-ENUM_LEN = {"quick": 4, "thorough": 5}
+BUDGET = {"quick": {"examples": 16000, "shrink": 300}, "thorough": {"examples": 640000, "shrink": 2000}}
+ENUM_LEN = {"quick": 4, "thorough": 6}
 EXHAUSTIVE = {"quick": "all 11^4 = 14641 histories of length 4 over the 8-event + 3-timing alphabet, each with and without a second filtered listener",
-              "thorough": "all 11^5 = 161051 histories of length 5 over the 8-event + 3-timing alphabet, each with and without a second filtered listener"}
+              "thorough": "all 11^6 = 1771561 histories of length 6 over the 8-event + 3-timing alphabet, each with and without a second filtered listener"}
 
 W = [0xFFFF, 0xFF, 0xFFFFFFFF]
 SERVICES = [(s, i, m, n) for s in (0x1000, 0x2000) for i in (1, 2) for m in (1, 2) for n in (0,)] + [(0x1000, 1, 1, 7)]
